@@ -115,6 +115,17 @@ def _execute(case):
             if case["tid"] % 3 == 0:          # nodata only as the array's attribute (no argument)
                 da.attrs["nodata"] = case["nd"]
                 case["ndmode"] = "attr"
+            if case.get("ndreal") is not None:
+                # the same series under a huge float sentinel (1e20, the float32 lowest, the netCDF fill value): the cells holding
+                # the case's small nodata value hold the real one instead, and the real one is read back as the small one
+                real = float(np.float32(case["ndreal"]))
+                xr_ = x.astype("float32")
+                xr_[x == case["nd"]] = real
+                da = xr.DataArray(xr_.reshape(shape), dims=dims)
+                r = da.hdc.rolling.sum(case["w"], nodata=real).transpose(..., "time")
+                vals = np.asarray(r).reshape(-1).astype("float64")
+                case["y"] = strs(np.where(vals == real, float(case["nd"]), vals))
+                return case
             r = da.hdc.rolling.sum(case["w"], nodata=(None if case.get("ndmode") == "attr" else case["nd"]))
             r = r.transpose(..., "time")
             vals = np.asarray(r).reshape(-1).astype("float64")
@@ -200,6 +211,11 @@ def gen_cases(tier, seed):
         for nd_ in (1073741001, 16777217, -16777217):
             for w in (1, 2, 3):
                 add({"op": "roll", "api": "accessor", "dtype": dtype, "dims": ["y", "x", "time"], "dask": False, "x": [1, 2, nd_, nd_, 3, 4, nd_, 5], "w": w, "nd": nd_, "attr": None})
+    # huge float sentinels (adding the sentinel into a total and taking it out again is not exact there)
+    for real in (1e20, -3.4028234663852886e38, 9.969209968386869e36):
+        for xs_ in ([ND, 1, 2, ND, ND, 3], [1, ND, 2, 3, ND], [ND, ND, 1], [2, 3, 1, ND]):
+            for w in (1, 2, 3):
+                add({"op": "roll", "api": "accessor", "dtype": "float32", "dims": ["y", "x", "time"], "dask": False, "x": xs_, "w": w, "nd": ND, "attr": None, "ndreal": real})
     # --- (B2) accessor (trim + dims + dask), all series up to length 4/5, all windows
     for n in range(1, (4 if quick else 5) + 1):
         S = all_series(ALPHA, n)
